@@ -398,6 +398,8 @@ def _table(draw, min_per=1, max_per=3, max_tuples=5, both_labels=False):
             [("1", "1.0"), ("1.0", "1"), ("01", "1")],
             [(",", ","), (",,", ""), ("", ",,")],
             [("None", "a"), ("None", "b"), ("a", "None")],
+            [("Jos\u00e9", "a"), ("Jose\u0301", "a"), ("Jose", "a")],  # canonically equivalent, yet different strings
+            [("a", "\u00c5"), ("a", "A\u030a"), ("a", "\u212b")],
             [("None", "None"), ("None", ""), ("nan", "None"), ("None", "nan")],
             [("a\\\\", "b"), ("a\\", "\\b"), ("a", "\\\\b")],
         ]))
